@@ -1,11 +1,20 @@
 use crate::rt::{Cfg, PropMeta, Report};
 
 pub mod selftest;
-pub mod c08;
+pub mod c01; pub mod c02; pub mod c03; pub mod c04; pub mod c05;
+pub mod c06; pub mod c07; pub mod c08; pub mod c09; pub mod c10;
+pub mod c11; pub mod c12; pub mod c13; pub mod c14; pub mod c15;
+pub mod c16; pub mod c17; pub mod c18; pub mod c19; pub mod c20;
 
 pub fn dispatch(id: &str, cfg: &Cfg, rep: &mut Report) -> Option<PropMeta> {
     Some(match id {
-        "C08" => c08::run(cfg, rep),
+        "C01" => c01::run(cfg, rep), "C02" => c02::run(cfg, rep), "C03" => c03::run(cfg, rep),
+        "C04" => c04::run(cfg, rep), "C05" => c05::run(cfg, rep), "C06" => c06::run(cfg, rep),
+        "C07" => c07::run(cfg, rep), "C08" => c08::run(cfg, rep), "C09" => c09::run(cfg, rep),
+        "C10" => c10::run(cfg, rep), "C11" => c11::run(cfg, rep), "C12" => c12::run(cfg, rep),
+        "C13" => c13::run(cfg, rep), "C14" => c14::run(cfg, rep), "C15" => c15::run(cfg, rep),
+        "C16" => c16::run(cfg, rep), "C17" => c17::run(cfg, rep), "C18" => c18::run(cfg, rep),
+        "C19" => c19::run(cfg, rep), "C20" => c20::run(cfg, rep),
         _ => return None,
     })
 }
